@@ -950,7 +950,12 @@ func (m *Manager) recoverFromWAL() error {
 		} else {
 			// Previous memtables become immutable
 			memTable.SetImmutable()
-			m.immutableMTs = append(m.immutableMTs, memTable)
+			// They are complete and nothing reads them through the pool:
+			// write them out now (oldest first), so that their content is
+			// visible to reads as the newest SSTables
+			if err := m.flushMemTable(memTable); err != nil {
+				return fmt.Errorf("failed to flush recovered MemTable: %w", err)
+			}
 		}
 	}
 
